@@ -168,6 +168,7 @@ type B struct {
 	b   NF
 	re  *Re
 	xs  []*B
+	noRewrite bool // BLin: the canonical-decimal rewrite has been applied already
 }
 
 var bTrue = &B{k: BTrue}
